@@ -573,7 +573,7 @@ inductive Stop where
   | nul                 -- a NUL byte was consumed (`if (!c) break;` and the tight loops)
   | stuck               -- out of redo fuel (proved impossible)
   | fault (why : String)
-  deriving Repr
+  deriving Repr, DecidableEq
 
 structure LoopEnd where
   tok : Tok
